@@ -188,7 +188,7 @@ def comp_task(prop, m, widths, known):
                         res.oblig(True)
                         continue
                     hb = h.bv(16) if isinstance(h, SymInt) else z3.BitVecVal(h, 16)
-                    regs = z3.Function('regs', z3.BitVecSort(5), z3.BitVecSort(32))
+                    regs = sem.RegReads('regs')
                     pc0 = z3.BitVec('pc0', 32)
                     # (a) legal RVC encoding: split on the (few) classes this path can emit
                     classes = sem.rvc_classes(hb)
@@ -204,7 +204,7 @@ def comp_task(prop, m, widths, known):
                     e32 = sem.step(w32, regs, pc0, 4)
                     for cn, pr, ex in feas:
                         e16 = sem.step(ex, regs, pc0, 2)
-                        r = q(*joint, pr, z3.Not(sem.same_effect(e16, e32)))
+                        r = q(*joint, pr, regs.constraints(), z3.Not(sem.same_effect(e16, e32)))
                         if r == z3.sat:
                             res.oblig(False)
                             violation('different-effect', s.model(), b, 'compressed form (%s) has a different architectural effect' % cn,
